@@ -82,7 +82,13 @@ pub fn eval_node<F: FnMut(&GraphColoredVertices, &str)>(
                 .clone();
 
             // if we already visited all of the duplicates, lets delete the cached value
-            if eval_context.duplicates[&canonized_formula_with_domains] == 0 {
+            // (raw sets of wild-card propositions are kept, they can't be recomputed if a sub-formula
+            // that could not be shared is evaluated more often than its duplicates were counted)
+            let is_wild_card = matches!(
+                node.node_type,
+                NodeType::Terminal(Atomic::WildCardProp(_))
+            );
+            if eval_context.duplicates[&canonized_formula_with_domains] == 0 && !is_wild_card {
                 eval_context
                     .duplicates
                     .remove(&canonized_formula_with_domains);
@@ -101,7 +107,12 @@ pub fn eval_node<F: FnMut(&GraphColoredVertices, &str)>(
             return result;
         } else {
             // if the cache does not contain result for this subformula, set insert flag
-            save_to_cache = true;
+            // (a result computed inside a restricted domain of a quantifier whose variable is not
+            // free in this sub-formula is valid only on that restricted graph, it can't be shared)
+            save_to_cache = eval_context
+                .free_var_domains
+                .iter()
+                .all(|(variable, domain)| domain.is_none() || renaming.contains_key(variable));
         }
     }
 
